@@ -156,6 +156,8 @@ def _run_one(args):
         return vid, "crash", [traceback.format_exc()[-800:]]
     known = load_known()
     bad = [o for o in ctx.obligations if not o.ok and not match_known(o, prop, known)]
+    if not bad and ctx.min_failures:
+        return vid, "analysis-error", list(ctx.min_failures)
     return vid, "violation" if bad else "pass", [
         f"{o.where} {o.construct} {o.rule} {o.what} -- {o.detail}"[:400] for o in bad]
 
